@@ -23,6 +23,9 @@ COLUMN_EXPRS = [
     ["concat", "(", "lower", "(", "ext", ")", ",", "upper", "(", "name", ")", ")"],
     ["length", "(", "concat", "(", "name", ",", "ext", ")", ")", "+", "1"],
     ["abs", "(", "(", "size", "-", "4", ")", ")"],
+    # `*`, `/`, `%` right behind the first operand after an opening bracket (where `count(*)` has its star)
+    ["(", "size", "*", "2", ")", "+", "1"], ["abs", "(", "size", "*", "2", ")"], ["3", "*", "(", "size", "%", "5", ")"],
+    ["(", "size", "/", "2", ")", "+", "(", "hardlinks", "*", "3", ")"],
     # names with an underscore next to arithmetic
     ["line_count", "+", "1"], ["mp3_bitrate", "+", "1"], ["hardlinks", "*", "2"], ["is_dir"], ["sha2_256"], ["line_count", "-", "1"],
 ]
